@@ -43,7 +43,7 @@ Reset(c) == /\ sc' = c /\ map' = 1 /\ nproc' = 1
          /\ sack' = [s \in Senders |-> ""] /\ sf' = ""
          /\ tpc' = [k \in Turns |-> "none"] /\ tproc' = [k \in Turns |-> 0] /\ tmsg' = [k \in Turns |-> NoMsg] /\ nturn' = 0
          /\ mpc' = "idle" /\ mproc' = 0 /\ fires' = 0
-         /\ zpc' = (IF c.shutdowns > 0 THEN "idle" ELSE "done") /\ ztarget' = 0 /\ stopping' = FALSE
+         /\ zpc' = (IF c.shutdowns > 0 THEN "idle" ELSE "done") /\ ztarget' = 0 /\ stopping' = FALSE /\ stopped' = FALSE
          /\ actDone' = [p \in Procs |-> p = 1] /\ deN' = [p \in Procs |-> 0] /\ inRecv' = {} /\ inDe' = {}
          /\ sent' = {} /\ got' = {}
 
